@@ -76,7 +76,7 @@ type hist struct {
 	h    *simval.History
 }
 
-var histKinds = []string{"reflect-sorted", "reflect-permuted", "extras-delete", "grow-shrink", "struct", "struct-empty-notnil", "unmarshal-shuffled", "clone", "merge", "overwrite", "reflect-truncate"}
+var histKinds = []string{"unmarshal-merge-split", "reflect-sorted", "reflect-permuted", "extras-delete", "grow-shrink", "struct", "struct-empty-notnil", "unmarshal-shuffled", "clone", "merge", "overwrite", "reflect-truncate"}
 
 func marshalVariant(m proto.Message, api int, prefix []byte) (b []byte, err error) {
 	defer func() {
@@ -222,6 +222,25 @@ func run(c *simrun.Ctx) *simrun.Violation {
 			mm := mt.New().Interface()
 			err = safeUnmarshal(enc, mm)
 			m = mm
+		case "unmarshal-merge-split":
+			// the stream cut in two at a record boundary: decode the first part,
+			// merge-decode the second
+			recs := simval.SplitRecords((&simval.EncodeOpts{T: t, Shuffle: true}).Encode(av))
+			cut := t.Draw("split", len(recs)+1)
+			var a, b []byte
+			for i, r := range recs {
+				if i < cut {
+					a = append(a, r...)
+				} else {
+					b = append(b, r...)
+				}
+			}
+			mm := mt.New().Interface()
+			err = safeUnmarshal(a, mm)
+			if err == nil {
+				err = safeMergeUnmarshal(b, mm)
+			}
+			m = mm
 		case "clone":
 			if base == nil {
 				m, err = h.BuildReflect(av, mt)
@@ -273,6 +292,12 @@ func run(c *simrun.Ctx) *simrun.Violation {
 				if mutateRevert(t, m) {
 					st.Add("fault_mutate_and_revert_between_encodings", 1)
 				}
+			}
+			if t.Chance("readonly-calls-between", 1, 8) {
+				simhook.Ord = &simhook.OrderCtl{Seed: uint64(t.Draw("ro-ordseed", 1<<30)), Mode: simhook.OrdShuffle}
+				readOnlyCalls(m)
+				simhook.Ord = nil
+				st.Add("fault_read_only_calls_between_encodings", 1)
 			}
 			if t.Chance("nondet-marshal-between", 1, 6) {
 				// an ordinary (non-deterministic) Marshal and a Size between two
@@ -380,6 +405,37 @@ func safeUnmarshal(b []byte, m proto.Message) (err error) {
 		}
 	}()
 	return proto.Unmarshal(b, m)
+}
+
+func safeMergeUnmarshal(b []byte, m proto.Message) (err error) {
+	defer func() {
+		if r := recover(); r != nil {
+			err = fmt.Errorf("merge-unmarshal panicked: %v", r)
+		}
+	}()
+	return proto.UnmarshalOptions{Merge: true}.Unmarshal(b, m)
+}
+
+// readOnlyCalls runs a batch of read-only library and reflection calls; what
+// they leave behind (if anything) must not change a later encoding.
+func readOnlyCalls(m proto.Message) {
+	defer func() { recover() }()
+	r := m.ProtoReflect()
+	r.Range(func(fd protoreflect.FieldDescriptor, v protoreflect.Value) bool {
+		if fd.IsMap() {
+			v.Map().Range(func(protoreflect.MapKey, protoreflect.Value) bool { return true })
+		}
+		return true
+	})
+	fds := r.Descriptor().Fields()
+	for i := 0; i < fds.Len(); i++ {
+		r.Has(fds.Get(i))
+		r.Get(fds.Get(i))
+	}
+	c := proto.Clone(m)
+	proto.Equal(m, c)
+	proto.Equal(c, m)
+	_ = fmt.Sprint(m)
 }
 
 func safeClone(m proto.Message) (out proto.Message, err error) {
